@@ -84,7 +84,7 @@ pub(crate) fn parse_directive(jsx_attr: &JSXAttr, is_component: bool) -> Directi
         if let Expr::Array(ArrayLit { elems, .. }) = &**expr {
             value = match elems.first() {
                 Some(Some(ExprOrSpread { spread: None, expr })) => (**expr).clone(),
-                _ => Expr::Ident(quote_ident!("").into()),
+                _ => undefined(),
             };
             if let Some(Some(ExprOrSpread { spread: None, expr })) = elems.get(1) {
                 match &**expr {
@@ -111,7 +111,7 @@ pub(crate) fn parse_directive(jsx_attr: &JSXAttr, is_component: bool) -> Directi
         }
     } else {
         modifiers = Some(splitted.map(Atom::from).collect());
-        value = Expr::Ident(quote_ident!("").into());
+        value = undefined();
     }
 
     Directive::Normal(NormalDirective {
@@ -137,6 +137,19 @@ pub(crate) fn parse_directive(jsx_attr: &JSXAttr, is_component: bool) -> Directi
         },
         modifiers: modifiers.and_then(|modifiers| transform_modifiers(modifiers, false)),
         value,
+    })
+}
+
+/// `void 0`, for a directive written without a value
+fn undefined() -> Expr {
+    Expr::Unary(UnaryExpr {
+        span: DUMMY_SP,
+        op: op!("void"),
+        arg: Box::new(Expr::Lit(Lit::Num(Number {
+            span: DUMMY_SP,
+            value: 0.0,
+            raw: None,
+        }))),
     })
 }
 
@@ -253,7 +266,15 @@ fn parse_v_model_directive(
     if let Expr::Array(ArrayLit { elems, .. }) = attr_value {
         value = match elems.first() {
             Some(Some(ExprOrSpread { spread: None, expr })) => (**expr).clone(),
-            _ => Expr::Ident(quote_ident!("").into()),
+            _ => {
+                HANDLER.with(|handler| {
+                    handler.span_err(
+                        jsx_attr.span,
+                        "The array passed to `v-model` must start with the bound expression.",
+                    );
+                });
+                Expr::Ident(quote_ident!("").into())
+            }
         };
         if let Some(Some(ExprOrSpread { spread: None, expr })) = elems.get(1) {
             match &**expr {
